@@ -44,6 +44,11 @@ type ctxCase struct {
 	Err       bool       `json:"err"`
 	BadBoost  bool       `json:"bad_boost"` // some boost is NaN / Inf / < 1
 	Probe     []ctxBoost `json:"probe"`     // boosts of a fixed second directory (.git and a Dockerfile) analysed right after this one
+	// a replica of the directory - same names, same contents - created in the reverse order on a file system that lists
+	// entries by creation (tmpfs), when one is available: the listing is the same, so the answer must be
+	HasReplica bool       `json:"has_replica"`
+	Types3     [][]int    `json:"types3"`
+	Boosts3    []ctxBoost `json:"boosts3"`
 }
 
 var ctxNames = []string{".git", "Dockerfile", "docker-compose.yml", "docker-compose.yaml", "package.json", "node_modules", "yarn.lock", "pnpm-lock.yaml",
@@ -153,6 +158,27 @@ func ctxRun(c *ctxCase, dir string) {
 	if pc2, err := wctx.NewAnalyzer().AnalyzeDirectory(d); err == nil && pc2 != nil {
 		c.Types2 = ctxTypes(pc2)
 		c.Boosts2, _ = ctxSorted(pc2.GetContextBoosts())
+	}
+	if st, err := os.Stat("/dev/shm"); err == nil && st.IsDir() {
+		rd, err := os.MkdirTemp("/dev/shm", "verif-ctx-")
+		if err == nil {
+			defer os.RemoveAll(rd)
+			ok := true
+			for i := len(c.Entries) - 1; i >= 0; i-- {
+				e := c.Entries[i]
+				p := filepath.Join(rd, fromInts(e.Name))
+				if e.Dir {
+					ok = ok && os.Mkdir(p, 0o755) == nil
+				} else {
+					ok = ok && os.WriteFile(p, []byte(fromInts(e.Content)), 0o644) == nil
+				}
+			}
+			if pc3, err := wctx.NewAnalyzer().AnalyzeDirectory(rd); ok && err == nil && pc3 != nil {
+				c.HasReplica = true
+				c.Types3 = ctxTypes(pc3)
+				c.Boosts3, _ = ctxSorted(pc3.GetContextBoosts())
+			}
+		}
 	}
 }
 
